@@ -9,7 +9,7 @@ RULE = ('every n in 1..N with position-revealing symmetric integer matrices in f
         'contiguous / transposed / strided-window inputs through the real get_triu/fill_triu and the '
         'symmetric allreduce/broadcast paths under simdist; malformed (non-square, non-2-D) shapes through '
         'the three communicator entry points; non-trivial = n ≥ 2; distinct = (n, dtype, layout) or shape'
-        '; bit-exact round trips of extreme entries (max/min normal, subnormal, ±0, ±inf) in four dtypes; n = 1023…2049 (3000 thorough); several symmetric tensors in flight through the bucketed path at capacities around one packed tensor; sub-groups whose group-local ranks differ from the global ones; ranks handing in differently laid-out (row-major, column-major, strided) tensors to one symmetric collective; round trips interleaved with get_triu on wide matrices in one process; torch.use_deterministic_algorithms(True)')
+        '; bit-exact round trips of extreme entries (max/min normal, subnormal, ±0, ±inf) in four dtypes; n = 1023…2049 (3000 thorough) and 5793 (packed length just above 2^24); several symmetric tensors in flight through the bucketed path at capacities around one packed tensor; sub-groups whose group-local ranks differ from the global ones; ranks handing in differently laid-out (row-major, column-major, strided) tensors to one symmetric collective; round trips interleaved with get_triu on wide matrices in one process; torch.use_deterministic_algorithms(True)')
 TRUSTED = [
     'Lean 4.33 kernel; axioms audited ⊆ {propext, Classical.choice, Quot.sound}',
     'hand-written model KV.Comm.getTriu/fillTriu/checkShape tied to kfac/distributed.py by this correspondence',
@@ -136,10 +136,14 @@ def large_stream(ctx):
     from kfac.distributed import fill_triu, get_triu
     rng = ctx.rng
     sizes = [1023, 1024, 1025, rng.randrange(1026, 1600)] + ([2047, 2049, 3000] if ctx.thorough() else [rng.choice([2047, 2049])])
+    # n(n+1)/2 first exceeds 2^24 (the integers a float32 index computation can hold exactly) at n = 5793
+    sizes += [5792, 5793, 6000] if ctx.thorough() else [5793]
     for n in sizes:
         dtype = rng.choice([torch.float32, torch.float64])
         i = torch.arange(n).view(-1, 1)
         j = torch.arange(n).view(1, -1)
+        if n > 4000:
+            dtype = torch.float32
         A = ((torch.minimum(i, j) * 31 + torch.maximum(i, j) * 7) % 8191).to(dtype)     # symmetric, position revealing
         case = {'n': n, 'dtype': str(dtype), 'stream': 'large'}
         try:
@@ -319,8 +323,9 @@ def layout_stream(ctx):
     kinds = ['contig', 'colmajor', 'window']
     for trial in range(ctx.budget(40, 300)):
         world = rng.choice([2, 3, 3, 4])
-        n = rng.choice([3, 4, 5, 8])
-        dtype = rng.choice([torch.float32, torch.float64])
+        n = rng.choice([3, 4, 5, 7, 8])
+        dtype = rng.choice([torch.float32, torch.float64, torch.float16, torch.bfloat16])
+        bound = 97 if dtype in (torch.float32, torch.float64) else 20      # (sums stay exactly representable in the half types)
         entry = rng.choice(['broadcast', 'allreduce', 'allreduce_bucketed'])
         lay = [rng.choice(kinds) for _ in range(world)]
         if len(set(lay)) == 1:
@@ -337,9 +342,9 @@ def layout_stream(ctx):
             big[1:A.shape[0] + 1, 1:2 * A.shape[0] + 1:2] = A
             return big[1:A.shape[0] + 1, 1:2 * A.shape[0] + 1:2]
 
-        def prog(rank, n=n, dtype=dtype, entry=entry, lay=lay, src=src, put=put):
+        def prog(rank, n=n, dtype=dtype, entry=entry, lay=lay, src=src, put=put, bound=bound):
             tdc = TorchDistributedCommunicator(bucket_cap_mb=25.0)
-            A = sym_matrix(n, dtype, 97) * (rank + 1)
+            A = sym_matrix(n, dtype, bound) * (rank + 1)
             if entry == 'broadcast':
                 t = put(A if rank == src else torch.zeros_like(A), lay[rank])
                 out = tdc.broadcast(t, src=src, symmetric=True)
@@ -355,7 +360,7 @@ def layout_stream(ctx):
             ctx.fail(f'run failed: exc={wd.exceptions} stalled={wd.stalled} errors={wd.errors[:2]}', case, 'layout-run')
             continue
         mult = (src + 1) if entry == 'broadcast' else sum(r + 1 for r in range(world))
-        want = sym_matrix(n, torch.float64, 97) * mult
+        want = sym_matrix(n, torch.float64, bound) * mult
         for rank in range(world):
             got = res[rank]
             if tuple(got.shape) != (n, n) or got.dtype != dtype or not torch.equal(got.to(torch.float64), want):
